@@ -55,7 +55,7 @@ def _expected(tree):
             for k in n.keywords:
                 if k.arg and matches(k.arg) and is_str(k.value):
                     exp.append(("B106", k.value.value, "keyword"))
-        elif isinstance(n, (ast.FunctionDef,)):
+        elif isinstance(n, (ast.FunctionDef, ast.AsyncFunctionDef)):
             a = n.args
             params = a.posonlyargs + a.args
             defs = [None] * (len(params) - len(a.defaults)) + list(a.defaults)
